@@ -41,6 +41,11 @@ def handle (kind : String) (args : List String) (impl : String) : String :=
         let want := " | ".intercalate outs
         if impl == want then "ok"
         else s!"DIFF model={want} impl={impl} ; SPEC replies-differ-from-results-in-request-order impl={impl}"
+  | "c01.held", [nS] =>
+    -- the replies of answered requests reach the client whatever the delay of the node serving a later request
+    match nS.toNat? with
+    | some n => if impl == s!"early={n} all={n+1}" then "ok" else s!"SPEC finished-replies-held-back-behind-an-unanswered-request impl={impl}"
+    | none => "bad-op"
   | "c01.client", _ =>
     if impl == "mismatches=0 unanswered=0" then "ok" else s!"SPEC reply-paired-with-wrong-request impl={impl}"
   | _, _ => "bad-op"
